@@ -27,8 +27,8 @@ def RowRep (row : List Total.Entry) (frow : List Entry) : Prop :=
 
 /-- the `(min_cost, prev_idx.end, prev_idx.index)` state of the `i32` loop for an `argminGo` accumulator -/
 def encSt (b : Nat) : Option (Nat × Int) → Int × Nat × Nat
-  | none => (I32_MAX, 65535, 65535)
-  | some (j, m) => (m, asU16 b, asU16 j)
+  | none => (I32_MAX, 65535, Total.idxNone)
+  | some (j, m) => (m, asU16 b, Total.asU32 j)
 
 theorem connGo_eq (hconn : I16Conn conn) (n : Node) (B D : Int) (hc : -D ≤ n.c ∧ n.c ≤ D)
     (hB : B + 32768 + D < 2147483647) :
@@ -206,7 +206,7 @@ theorem connectEos_rep (hconn : I16Conn conn) (len : Nat) (hlen : len ≤ 32767)
     Total.connectEos addI32 I32_MAX conn rows len =
       match argmin conn (frows len) (eosNode len) with
       | none => .err "Disconnect"
-      | some (j, v) => .ok (v, len, asU16 j) := by
+      | some (j, v) => .ok (v, len, Total.asU32 j) := by
   have hid : asU16 len = len := Total.asU16_id len (by omega)
   obtain ⟨row, g, rep⟩ := hrep len (Nat.le_refl _)
   have hbound := hinv.2 len row g
